@@ -33,6 +33,11 @@ CHECKS['C11'] = dict(text='Bounded symbolic execution of the real CustomWithExpr
              note=TRUST_M + 'Oracle: reference substitution + quoted-text scanner in props/c11.py. Preconditions (documented misuse otherwise): every placeholder designates an existing value; `$<digits><word char>` and `_$` excluded as ambiguous. '
                   'Known finding: inject_parameters re-reads the literal mark produced by a doubled mark.',
              technique='symbolic execution of rustc MIR with z3 deciding per-path equality with a reference substitution', ref='6/C11', engine=ENGINE_M)
+CHECKS['C05'] = dict(text='Bounded symbolic execution of the real expression renderer (prepare_simple_expr, binary_expr, the precedence and associativity deciders of the three backends, the ExprTrait encodings of BETWEEN / LIKE..ESCAPE / IN / CAST / IS NULL / NOT) '
+                  'over all expression trees of depth <= 2 (18 node kinds at every operand position; depth 3 over 8 core kinds in the thorough tier) in which every plain binary operator is a symbolic discriminant over 17 operators: on every feasible path the rendered text is parsed by a '
+                  'reference precedence-climbing parser of the target dialect and must yield exactly the built tree (extra parentheses are accepted).',
+             note=TRUST_M + 'Oracle: props/sqlparse.py - precedence levels / associativity of MySQL 8.0, PostgreSQL 16 and SQLite 3.45 from their manuals and grammar files; an operator unknown to a dialect must be fully parenthesised. option-more-parentheses is not exercised in the quick tier.',
+             technique='symbolic execution of rustc MIR with symbolic operator discriminants; z3 decides path feasibility, a reference parser decides each path', ref='6/C05', engine=ENGINE_M)
 NA = {}
 def load_props():
     return [json.loads(l) for l in open(os.path.join(V, 'properties.jsonl'))]
